@@ -376,12 +376,15 @@ theorem inv_setMaxFrame (s : St) (v : Nat) (hw : (Label.setMaxFrame v).wf = true
   have L := h.live hc
   cases hside : s.side
   · simp only []
-    refine ⟨?_, rfl, fun _ => ?_⟩
-    · simp only [peerOf_snoc, peerStep]; exact h.ok
-    · simp only [peerOf_snoc, peerStep]
-      refine ⟨L.count, L.init, rfl, L.cn_le, L.cn_range, L.init_range, ⟨by show (1 : Int) ≤ (v : Int); omega, by show (v : Int) ≤ 2147483647; omega⟩, ?_⟩
-      intro j hj
-      exact L.strm j (by rw [← hj]; symm; apply tracked_congr <;> simp [hside])
+    split   -- [c08l9] the client validates too
+    · refine ⟨?_, rfl, fun hcl => by simp at hcl⟩
+      simp only [peerOf_snoc2, peerStep]; exact h.ok
+    · refine ⟨?_, rfl, fun _ => ?_⟩
+      · simp only [peerOf_snoc, peerStep]; exact h.ok
+      · simp only [peerOf_snoc, peerStep]
+        refine ⟨L.count, L.init, rfl, L.cn_le, L.cn_range, L.init_range, ⟨by show (1 : Int) ≤ (v : Int); omega, by show (v : Int) ≤ 2147483647; omega⟩, ?_⟩
+        intro j hj
+        exact L.strm j (by rw [← hj]; symm; apply tracked_congr <;> simp [hside])
   · simp only []
     split
     · refine ⟨?_, rfl, fun hcl => by simp at hcl⟩
@@ -682,12 +685,18 @@ theorem exact_setMaxFrame (s : St) (v : Nat) (h : Inv s) (e : Exact s) :
   simp only [hc, h.nopanic, Bool.or_false, Bool.false_eq_true, if_false]
   cases hside : s.side
   · simp only []
-    intro hconf
-    simp only [peerOf_snoc, peerStep, Bool.and_eq_true, decide_eq_true_eq] at hconf ⊢
-    obtain ⟨_, e2, e3⟩ := e hconf.1.1
-    refine ⟨trivial, e2, ?_⟩
-    intro j hj
-    exact e3 j (by rw [← hj]; symm; apply tracked_congr <;> simp [hside])
+    split   -- [c08l9] the client validates too
+    · rename_i hbad
+      intro hconf
+      simp only [peerOf_snoc2, peerStep, Bool.and_eq_true, decide_eq_true_eq] at hconf
+      simp only [Bool.or_eq_true, decide_eq_true_eq] at hbad
+      omega
+    · intro hconf
+      simp only [peerOf_snoc, peerStep, Bool.and_eq_true, decide_eq_true_eq] at hconf ⊢
+      obtain ⟨_, e2, e3⟩ := e hconf.1.1
+      refine ⟨trivial, e2, ?_⟩
+      intro j hj
+      exact e3 j (by rw [← hj]; symm; apply tracked_congr <;> simp [hside])
   · simp only []
     split
     · rename_i hbad
